@@ -492,3 +492,31 @@ func ReadAll(r ion.Reader) ([]*rm.Value, int, error) {
 	vs, err := readSeq(r, rc, 0)
 	return vs, rc.Calls, err
 }
+
+// ReadShallow converts the Reader's current value without stepping into containers.
+func ReadShallow(r ion.Reader) (*rm.Value, error) {
+	mt, ok := ModelType(r.Type())
+	if !ok {
+		return nil, fmt.Errorf("drive: no current value (Type %v)", r.Type())
+	}
+	if mt.IsContainer() {
+		v := &rm.Value{Type: mt, Null: r.IsNull()}
+		as, err := r.Annotations()
+		if err != nil {
+			return nil, fmt.Errorf("Annotations: %w", err)
+		}
+		for _, a := range as {
+			v.Annots = append(v.Annots, SymOf(a))
+		}
+		fn, err := r.FieldName()
+		if err != nil {
+			return nil, fmt.Errorf("FieldName: %w", err)
+		}
+		if fn != nil {
+			s := SymOf(*fn)
+			v.Field = &s
+		}
+		return v, nil
+	}
+	return ReadValue(r, &ReadCounter{})
+}
